@@ -34,7 +34,8 @@ TENANT_VARIANTS = [
     {"zoo": "Z8"}, {"zoo": "Z8", "wave": True, "relief": True}, {"zoo": "Z8", "exact": True}, {"zoo": "Z5", "sym": False},
     {"zoo": "Z9"}, {"zoo": "Z10"}, {"zoo": "Z11", "compressible": True}, {"zoo": "Z11", "ground": True},
     {"zoo": "Z12", "wingbox": False}, {"zoo": "Z13"}, {"zoo": "Z14"}, {"zoo": "Z15"}, {"zoo": "Z3", "tail": True},
-    {"zoo": "Z5", "user_meshes": True},
+    {"zoo": "Z5", "user_meshes": True}, {"zoo": "Z13", "compressible": True}, {"zoo": "Z13", "user_sref": True},
+    {"zoo": "Z8", "pm": True}, {"zoo": "Z9", "rotational": True}, {"zoo": "Z1", "user_sref": True},
 ]
 
 # ------------------------------------------------------------------------------------------------
@@ -235,6 +236,56 @@ def _degenerate_coplanar_tail_alpha0():
     return info
 
 
+def _alias_generate_mesh():
+    """Two calls of the mesh generator with the same dictionary must hand out independent arrays: editing one mesh in
+    place (adding dihedral or camber by hand is a documented workflow) must not change the other, nor what a third call
+    returns."""
+    from openaerostruct.geometry.utils import generate_mesh
+
+    info = {"stage": "build", "exc": None, "msg": None, "warnings": [], "produced_numbers": False, "alias": None}
+    try:
+        problems = []
+        for md in ({"num_y": 7, "num_x": 2, "wing_type": "rect", "symmetry": True, "span": 10.0, "root_chord": 1.0},
+                   {"num_y": 5, "num_x": 3, "wing_type": "rect", "symmetry": False},
+                   {"num_y": 5, "num_x": 2, "wing_type": "CRM", "symmetry": True, "num_twist_cp": 3}):
+            a = generate_mesh(dict(md))
+            b = generate_mesh(dict(md))
+            a0, b0 = (a[0], b[0]) if isinstance(a, tuple) else (a, b)
+            ref = b0.copy()
+            if np.shares_memory(a0, b0):
+                problems.append("%s: two calls share memory" % md["wing_type"])
+            a0[:, :, 2] += 0.123
+            if not np.array_equal(b0, ref):
+                problems.append("%s: editing one mesh changed the other" % md["wing_type"])
+            c = generate_mesh(dict(md))
+            c0 = c[0] if isinstance(c, tuple) else c
+            if not np.array_equal(c0, ref):
+                problems.append("%s: a later call returns the edited mesh" % md["wing_type"])
+            if isinstance(a, tuple) and np.shares_memory(a[1], b[1]):
+                problems.append("%s: twist arrays share memory" % md["wing_type"])
+        info["alias"] = problems
+        info["stage"] = "completed-no-problem"
+    except Exception as e:  # noqa
+        info["exc"] = type(e).__name__
+        info["msg"] = str(e)[:200]
+    return info
+
+
+def _bad_multisection_after_valid(field):
+    """The same malformed multi-section dict, but offered after a well-formed one has been processed in this process."""
+    from openaerostruct.geometry.geometry_group import build_sections
+
+    good = {
+        "name": "surface", "is_multi_section": True, "num_sections": 2, "sec_name": ["sec0", "sec1"],
+        "symmetry": True, "S_ref_type": "wetted", "root_section": 1, "taper": [1.0, 1.0], "span": [1.0, 1.0],
+        "sweep": [0.0, 0.0], "chord_cp": [np.ones(2), np.ones(2)], "twist_cp": [np.zeros(2), np.zeros(2)],
+        "root_chord": 1.0, "meshes": "gen-meshes", "nx": 2, "ny": [5, 5], "CL0": 0.0, "CD0": 0.015,
+        "k_lam": 0.05, "c_max_t": 0.303, "with_viscous": False, "with_wave": False, "groundplane": False,
+    }
+    build_sections(good)
+    return _bad_multisection(field)
+
+
 def _bad_even_num_y_crm():
     from openaerostruct.geometry.utils import generate_mesh
 
@@ -433,12 +484,24 @@ ERROR_TABLE = {
     "unknown_key_added_to_reused_dict": (_warn_key_added_to_reused_dict, "WARN", "colour"),
     "unknown_mesh_dict_key_second_call": (_warn_mesh_key_twice, "WARN", "num_z"),
     "degenerate_coplanar_tail_at_alpha_0": (_degenerate_coplanar_tail_alpha0, "FINITE_OR_ERROR", None),
+    "generate_mesh_results_independent": (_alias_generate_mesh, "ALIAS", None),
+    "multisection_ny_length_after_valid_build": (lambda: _bad_multisection_after_valid("ny"), "ValueError", None),
+    "multisection_taper_length_after_valid_build": (lambda: _bad_multisection_after_valid("taper"), "ValueError", None),
+    "multisection_span_length_after_valid_build": (lambda: _bad_multisection_after_valid("span"), "ValueError", None),
+    "multisection_sweep_length_after_valid_build": (lambda: _bad_multisection_after_valid("sweep"), "ValueError", None),
+    "multisection_sec_name_length_after_valid_build": (lambda: _bad_multisection_after_valid("sec_name"), "ValueError", None),
 }
 
 
 def judge_bad_setup(name, info):
     """Return None if the malformed set-up was handled as the property demands, else a description."""
     fn, exc, warn = ERROR_TABLE[name]
+    if exc == "ALIAS":
+        if info["exc"]:
+            return "mesh generator raised %s: %s" % (info["exc"], info["msg"])
+        if info.get("alias"):
+            return "; ".join(info["alias"])
+        return None
     if exc == "FINITE_OR_ERROR":
         if info["produced_numbers"] and not info.get("finite"):
             return "returned normally with non-finite outputs (no error raised)"
@@ -495,6 +558,8 @@ def _gen(seed, tier, opts):
                 spec["ny"] = rng.choice([5, 7])
                 spec["nx"] = rng.choice([2, 2, 3])
         spec["mode"] = rng.choice(["fwd", "rev"])
+        if "mesh_opts" not in spec and spec["zoo"] in ("Z1", "Z2", "Z3", "Z4", "Z6", "Z8", "Z9", "Z11", "Z12", "Z15") and rng.random() < 0.35:
+            spec["mesh_opts"] = dict(rng.choice(zoo.MESH_OPT_CHOICES))
         if "surf_opts" not in spec and spec["zoo"] in ("Z1", "Z2", "Z3", "Z4", "Z8", "Z9", "Z10", "Z11", "Z12", "Z13", "Z15") and rng.random() < 0.3:
             spec["surf_opts"] = dict(rng.choice(zoo.SURF_OPT_CHOICES))
         model = zoo.build(spec)
@@ -531,7 +596,8 @@ def _gen(seed, tier, opts):
             if rng.random() < 0.4:
                 # build the same tenant again from new objects (ids of collected objects may be reused) and repeat
                 ops += [{"op": "rebuild"}, {"op": "final_setup"}, {"op": "set", "k": 0}, {"op": "run"}, {"op": "totals"}, {"op": "drop"}]
-        tenants.append({"id": t, "spec": spec, "points": points, "ops": ops, "twin_of": None})
+        tenants.append({"id": t, "spec": spec, "points": points, "ops": ops, "twin_of": None,
+                        "late": bool(t > 0 and rng.random() < 0.35)})
     # malformed set-ups as short-lived tenants
     bad = []
     names = sorted(ERROR_TABLE)
@@ -541,8 +607,14 @@ def _gen(seed, tier, opts):
     cursors = {t["id"]: 0 for t in tenants}
     script = []
     pending_bad = list(bad)
+    dropped = 0
     while any(cursors[t["id"]] < len(t["ops"]) for t in tenants) or pending_bad:
         choices = [t["id"] for t in tenants if cursors[t["id"]] < len(t["ops"])]
+        # a late tenant only comes to life after some other tenant has been dropped and collected (its new objects may
+        # land at the addresses of the dead ones); if nothing is ever dropped it simply starts last
+        early = [c for c in choices if not (tenants[c].get("late") and cursors[c] == 0 and dropped == 0)]
+        if early:
+            choices = early
         if pending_bad and (not choices or rng.random() < 0.15):
             script.append(["bad", pending_bad.pop(0)])
             continue
@@ -551,6 +623,8 @@ def _gen(seed, tier, opts):
         for _ in range(rng.randint(1, 2)):
             if cursors[tid] < len(tenants[tid]["ops"]):
                 script.append(["t", tid, cursors[tid]])
+                if tenants[tid]["ops"][cursors[tid]]["op"] == "drop":
+                    dropped += 1
                 cursors[tid] += 1
     case = {
         "property": PROP, "seed": seed, "tenants": tenants, "script": script, "share": share_level,
